@@ -8,6 +8,15 @@ from .. import compare as cmp
 from ..core import Outcome, Prop
 from ..proj import norm
 from . import slices
+from ..core import Slice
+
+FRAME_ROWS_REPORT = Slice(name="FrameRows.report", module="FrameRows",
+                          cfg={"quick": "mc/MC_FrameRows_quick.cfg", "thorough": "mc/MC_FrameRows_thorough.cfg"},
+                          observe=("vf.obs_rows", "observe_rows"), cap={"quick": 8000, "thorough": 80000},
+                          # the shipped selection is the specification's (no label de-duplication at work), and the rows are
+                          # in their original order (a random sample permutes them: "all but the first duplicate" moves)
+                          select=lambda v: v.get("mode") == "subsample" and v.get("backend") == "pandas" and not v.get("devs")
+                          and v.get("ix") != "multits" and v.get("sel_same") and v.get("head") != -2)
 
 
 def against(exp: List[Dict[str, Any]], eager: Dict[str, Any], lazy: Dict[str, Any], with_col: bool) -> List[str]:
@@ -43,6 +52,36 @@ def against(exp: List[Dict[str, Any]], eager: Dict[str, Any], lazy: Dict[str, An
     if dict(wc) != lazy["report"]["counts"]:
         out.append("error_counts %s != predicted %s" % (lazy["report"]["counts"], dict(wc)))
     return out
+
+
+STAGES = ["nullable", "unique", "gt0", "le1", "joint", "rowcheck"]
+
+
+def compare_rows(vec: Dict[str, Any], obs: Dict[str, Any]) -> Outcome:
+    """FrameRows.tla (pandas, head/tail/sample selections, every index / column labelling): the lazy report names, per
+    constraint, exactly the selected rows that violate it (a repeated label stands for every row carrying it)"""
+    oc = Outcome()
+    if vec["backend"] != "pandas" or vec.get("devs") or "report" not in obs:
+        return oc
+    labels = _labels(vec)
+    want = {}
+    for st, rows in zip(STAGES, vec["failing"]):
+        if rows:
+            # rows that share a label with a failing row are indistinguishable in a report keyed by label
+            want[st] = sorted(i + 1 for i, l in enumerate(labels) if l in {labels[r - 1] for r in rows})
+    got = {k: v for k, v in obs["report"].items()}
+    if want != got:
+        oc.mismatches.append("lazy report of head=%s tail=%s on a=%s b=%s (index/column labelling %s): rows named per constraint %s, "
+                             "specification %s" % (vec["head"], vec["tail"], vec["a"], vec["b"], vec.get("ix"), got, want))
+    s = vec["schema"]
+    oc.sig = "rowsreport|%s|%s|%s|%s" % (sorted(s.items()), vec.get("ix"), sorted(want), len(vec["a"]))
+    return oc
+
+
+def _labels(vec):
+    n = len(vec["a"])
+    ixk = vec.get("ix", "unique")
+    return [((i + 2) // 2 if ixk in ("dup", "multidup") else i + 11) for i in range(n)]
 
 
 def compare_run(vec: Dict[str, Any], obs: Dict[str, Any]) -> Outcome:
@@ -87,6 +126,8 @@ def compare_run(vec: Dict[str, Any], obs: Dict[str, Any]) -> Outcome:
 
 
 def compare(vec: Dict[str, Any], obs: Dict[str, Any]) -> Outcome:
+    if vec["kind"] == "rows":
+        return compare_rows(vec, obs)
     if vec["kind"].endswith("_run"):
         return compare_run(vec, obs)
     oc = Outcome()
@@ -126,7 +167,7 @@ def compare(vec: Dict[str, Any], obs: Dict[str, Any]) -> Outcome:
 PROP = Prop(
     id="C02",
     title="Lazy and eager validation agree; the error report is exact",
-    slices=[slices.SERIES] + slices.FRAME_SLICES + [slices.SERIES_PARSE_BOTH, slices.FRAME_PARSE_BOTH],
+    slices=[slices.SERIES] + slices.FRAME_SLICES + [slices.SERIES_PARSE_BOTH, slices.FRAME_PARSE_BOTH, FRAME_ROWS_REPORT],
     compare=compare,
     rule=("Every vector of the exhaustive slices is run eagerly and lazily; TLC predicts the full list of errors in "
           "pipeline order with their failure cases (ReportExact, CasesAreViolations, ReportIsFunctional). Non-trivial = "
